@@ -98,6 +98,12 @@ func verify(c fox.Context, e *expect, where string) {
 	if ip := c.RemoteIP().String(); !strings.HasPrefix(e.req.RemoteAddr, ip+":") {
 		e.fail("%s: RemoteIP()=%q for RemoteAddr %q", where, ip, e.req.RemoteAddr)
 	}
+	if ip, err := c.ClientIP(); err != nil || ip.String() != ipOfToken(e.tok) {
+		e.fail("%s: ClientIP()=%v (%v), the resolver designates %s for this request", where, ip, err, ipOfToken(e.tok))
+	}
+	if c.Fox() == nil {
+		e.fail("%s: Fox() is nil", where)
+	}
 	if c.Pattern() != e.pattern {
 		e.fail("%s: Pattern()=%q, expected %q", where, c.Pattern(), e.pattern)
 	}
@@ -252,6 +258,22 @@ func (w *world) mw(scopeName string) fox.MiddlewareFunc {
 	}
 }
 
+// tokenResolver designates the client address from the request's own token, so that an answer kept from another
+// request is visible.
+type tokenResolver struct{}
+
+func ipOfToken(tok string) string {
+	n, _ := strconv.Atoi(strings.TrimLeft(strings.TrimRight(tok[1:], "b"), "0"))
+	if strings.HasSuffix(tok, "b") {
+		n += 1 << 22
+	}
+	return fmt.Sprintf("100.%d.%d.%d", (n>>16)&255, (n>>8)&255, n&255)
+}
+
+func (tokenResolver) ClientIP(c fox.Context) (*net.IPAddr, error) {
+	return &net.IPAddr{IP: net.ParseIP(ipOfToken(c.Header("X-Token")))}, nil
+}
+
 func newWorld(run *kit.Run) *world { return newWorldWith(run, false) }
 
 // newWorldWith optionally installs, on every scope, a middleware that forwards a CloneWith copy of the context.
@@ -268,6 +290,7 @@ func newWorldWith(run *kit.Run, forward bool) *world {
 		}))
 	}
 	f, err := fox.New(append(extra,
+		fox.WithClientIPResolver(tokenResolver{}),
 		fox.WithNoRouteHandler(w.handler("noroute")),
 		fox.WithNoMethodHandler(w.handler("nomethod")),
 		fox.WithOptionsHandler(w.handler("options")),
